@@ -100,7 +100,9 @@ Definition ex_kw_md : mdesc :=
     mkF 4 (KMsg 4) COpt None false false false;          (* Struct *)
     mkF 5 (KMsg 5) COpt None false false false;          (* ListValue *)
     mkF 6 (KMsg 6) COpt None false false false;          (* Int64Value *)
-    mkF 7 (KMsg 3) CRep None false false false ].        (* repeated Value *)
+    mkF 7 (KMsg 3) CRep None false false false;          (* repeated Value *)
+    mkF 8 (KMsg 7) COpt None false false false;          (* Timestamp *)
+    mkF 9 (KMsg 8) COpt None false false false ].        (* Duration *)
 Definition ex_value_md : mdesc :=
   [ mkF 1 (KS SkEnum) COpt (Some 0) false false false;
     mkF 2 (KS SkDouble) COpt (Some 0) false false false;
@@ -112,8 +114,11 @@ Definition ex_struct_md : mdesc := [ mkF 1 (KMsg 3) (CMap SkString true 0) None 
 Definition ex_listvalue_md : mdesc := [ mkF 1 (KMsg 3) CRep None false false false ].
 Definition ex_int64value_md : mdesc := [ mkF 1 (KS SkInt64) CImp None false false false ].
 
+Definition ex_secs_nanos_md : mdesc :=
+  [ mkF 1 (KS SkInt64) CImp None false false false; mkF 2 (KS SkInt32) CImp None false false false ].
+
 Definition ex_schema_w : schema :=
-  [[]; ex_t_md; ex_kw_md; ex_value_md; ex_struct_md; ex_listvalue_md; ex_int64value_md].
+  [[]; ex_t_md; ex_kw_md; ex_value_md; ex_struct_md; ex_listvalue_md; ex_int64value_md; ex_secs_nanos_md; ex_secs_nanos_md].
 
 Definition ex_names_w : names :=
   mkNM
@@ -122,14 +127,17 @@ Definition ex_names_w : names :=
       mkMN (bs "verif.KW") 0
         [ mkFN (bs "opt_null") (bs "optNull") false (Some 1%nat); mkFN (bs "n") (bs "n") false None;
           mkFN (bs "opt_value") (bs "optValue") false None; mkFN (bs "st") (bs "st") false None;
-          mkFN (bs "lv") (bs "lv") false None; mkFN (bs "w") (bs "w") false None; mkFN (bs "rv") (bs "rv") false None ];
+          mkFN (bs "lv") (bs "lv") false None; mkFN (bs "w") (bs "w") false None; mkFN (bs "rv") (bs "rv") false None;
+          mkFN (bs "ts") (bs "ts") false None; mkFN (bs "dur") (bs "dur") false None ];
       mkMN (bs "google.protobuf.Value") 7
         [ mkFN (bs "null_value") (bs "nullValue") true (Some 1%nat); mkFN (bs "number_value") (bs "numberValue") true None;
           mkFN (bs "string_value") (bs "stringValue") true None; mkFN (bs "bool_value") (bs "boolValue") true None;
           mkFN (bs "struct_value") (bs "structValue") true None; mkFN (bs "list_value") (bs "listValue") true None ];
       mkMN (bs "google.protobuf.Struct") 5 [ mkFN (bs "fields") (bs "fields") false None ];
       mkMN (bs "google.protobuf.ListValue") 6 [ mkFN (bs "values") (bs "values") false None ];
-      mkMN (bs "google.protobuf.Int64Value") 4 [ mkFN (bs "value") (bs "value") false None ] ]
+      mkMN (bs "google.protobuf.Int64Value") 4 [ mkFN (bs "value") (bs "value") false None ];
+      mkMN (bs "google.protobuf.Timestamp") 2 [ mkFN (bs "seconds") (bs "seconds") false None; mkFN (bs "nanos") (bs "nanos") false None ];
+      mkMN (bs "google.protobuf.Duration") 3 [ mkFN (bs "seconds") (bs "seconds") false None; mkFN (bs "nanos") (bs "nanos") false None ] ]
     (nm_enums ex_names).
 
 Definition v_null : value := VMsg [(1, [VS (SZ 0)])] [].
@@ -146,7 +154,9 @@ Definition ex_kw : value :=
                          VEntry (SBy (bs "b")) (v_list [v_bool true; v_str "NaN"; v_list []])])] []]);
          (5, [VMsg [(1, [v_num 9223372036854775808])] [x08; x01]]);        (* [-0.0], with an unknown field *)
          (6, [VMsg [(1, [VS (SZ (-9223372036854775808))])] []]);
-         (7, [v_null; v_str ""; VMsg [(5, [VMsg [] []])] []]) ]
+         (7, [v_null; v_str ""; VMsg [(5, [VMsg [] []])] []]);
+         (8, [VMsg [(1, [VS (SZ 951782400)]); (2, [VS (SZ 120000000)])] []]);      (* 2000-02-29T00:00:00.120Z *)
+         (9, [VMsg [(2, [VS (SZ (-5))])] []]) ]                                      (* -0.000000005s *)
        [].
 
 (* F11: verif.KW{} -- unset explicit-presence Value and NullValue fields (textpb2.KnownTypes{}-like) *)
